@@ -3,11 +3,17 @@ P = Verus proved (unbounded), K = Kani complete (loop-free, full domain), B = bo
 """
 
 VERUS_UNITS = {
+    'helper': 'build_helper.rs: every BuildHelper fn, VacantIter::next, ListItem accessors; sorted circular vacant list invariant; no assert/unwrap/index/overflow can fail',
+    'ser': 'serializer.rs trait contracts, Option<NonZeroU32>, Vec<S>; U24nU8, State, Output<V>, MatchKind (+From<u8>/u8::from); bytewise serialize/deserialize_unchecked; C09 client',
     'search_bw': 'bytewise.rs child_index_unchecked / next_state_id_unchecked / next_state_id_leftmost_unchecked, State accessors, intpack getters',
     'iter_bw': 'bytewise/iter.rs next() of the four iterators against spec streams over the double array; laziness; index safety',
 }
 
-KANI_HARNESSES = {}
+KANI_SER = ['ser_u8', 'ser_u16', 'ser_u32', 'ser_u64', 'ser_u128', 'ser_usize', 'ser_i8', 'ser_i16', 'ser_i32', 'ser_i64', 'ser_i128', 'ser_isize', 'ser_empty']
+KANI_HARNESSES = {h: 'little-endian primitive Serializable impl: bytes, size, exact inverse with symbolic tail (full domain)' for h in KANI_SER}
+KANI_HARNESSES.update({'from_u32': 'usize::from_u32 is lossless, unwrap_unchecked only on Ok (all u32)',
+                       'intpack_u24nu8': 'U24nU8 a/b/set_a/set_b and U24::try_from (all raw values)',
+                       'utf8_decoder_two_chars': 'CharWithEndOffsetIterator::next on every ordered pair of chars: end offsets, scalar values, unwrap_unchecked on Some'})
 
 NFA_ASSUMED = ('NFA stage (nfa_builder.rs: add, build_fails, build_fails_leftmost, build_outputs): its contract '
                '(nfa_tree, nfa_links, nfa_is_ac) is ASSUMED by the deductive chain and checked exhaustively inside the '
@@ -33,16 +39,20 @@ PROPS = {
     'C05': dict(verus=['search_bw', 'iter_bw'], kani=[], bounded=True,
                 chain='FindOverlappingNoSuffixIterator::next refines nosuf_stream with persistent state (P); rest as C01',
                 assumed=[NFA_ASSUMED, DA_ASSUMED, AC_ASSUMED]),
-    'C06': dict(verus=['search_bw', 'iter_bw'], kani=[], bounded=True,
+    'C06': dict(verus=['search_bw', 'iter_bw', 'ser'], kani=[], bounded=True,
                 chain='every returned Match is mk_match(outputs[opos-1], end) (P); outputs[j] == (value_i, |p_i|) (B)',
                 assumed=[NFA_ASSUMED, DA_ASSUMED]),
-    'C07': dict(verus=['search_bw', 'iter_bw'], kani=[], bounded=True,
+    'C07': dict(verus=['search_bw', 'iter_bw', 'helper'], kani=['from_u32', 'utf8_decoder_two_chars'], bounded=True,
                 chain='every get_unchecked in bytewise search/iterators is an index obligation under da_safe/da_ranked (P); build establishes them (B)',
                 assumed=[NFA_ASSUMED, DA_ASSUMED]),
     'C08': dict(verus=[], kani=[], bounded=True, chain='B only so far', assumed=[AC_ASSUMED]),
-    'C09': dict(verus=[], kani=[], bounded=True, chain='B only so far', assumed=[]),
-    'C10': dict(verus=[], kani=[], bounded=True, chain='B only so far', assumed=[]),
-    'C11': dict(verus=['search_bw', 'iter_bw'], kani=[], bounded=True,
+    'C09': dict(verus=['ser'], kani=KANI_SER + ['intpack_u24nu8'], bounded=True,
+                chain='byte-wise: deserialize_unchecked(serialize(a) ++ t) == (a, t) and re-serialisation reproduces the bytes (P: ser, for every V satisfying the trait contract) <- primitive LE impls (K, 13 harnesses); char-wise automaton and CodeMapper: B',
+                assumed=['user-defined V: satisfies the Serializable trait contract (ser/deser inverse, fixed width < 256 MiB)', 'derived PartialEq is structural']),
+    'C10': dict(verus=['helper'], kani=[], bounded=True,
+                chain='never panics: every assert!/debug_assert!/unwrap/index/arithmetic in build_helper.rs is a discharged obligation under the list invariant (P: helper); accept/reject and the rest of construction: B',
+                assumed=[NFA_ASSUMED, DA_ASSUMED]),
+    'C11': dict(verus=['search_bw', 'iter_bw', 'helper'], kani=[], bounded=True,
                 chain='search contracts depend on the array only through encodes (P side); build for every num_free_blocks (B)',
                 assumed=[NFA_ASSUMED, DA_ASSUMED]),
     'C12': dict(verus=['iter_bw'], kani=[], bounded=True,
